@@ -519,6 +519,7 @@ func TestVerifC09Backoff(t *testing.T) {
 
 			return c09RunIso(r, c)
 		})
+		c09ExpiryPart(r, expired)
 	})
 	r.Finish()
 	os.Exit(0)
